@@ -284,10 +284,12 @@ def file_hash(path, n):
     return hashlib.sha256(body(path, n).encode()).hexdigest()
 
 
-def config_toml(depth0=False, rg=None, ff_cfg=False, wae_cfg=False):
+def config_toml(depth0=False, rg=None, ff_cfg=False, wae_cfg=False, ns=False):
     t = ['version = "2"', "[scanner]", 'exclude = [".sloc-guard*"]', "[content]", "max_lines = %d" % MAX_LINES,
-         "warn_threshold = 0.8", 'extensions = ["rs"]', "[structure]", "max_files = 1", "max_dirs = 1"]
-    if depth0:
+         "warn_threshold = 0.8", 'extensions = ["rs"]']
+    if not ns:      # ns: no [structure] section, so no directory is counted (structure checks disabled)
+        t += ["[structure]", "max_files = 1", "max_dirs = 1"]
+    if depth0 and not ns:
         t.append("max_depth = 0")
     if rg:
         t += ["[baseline]", 'ratchet = "%s"' % {"w": "warn", "a": "auto", "s": "strict"}[rg]]
@@ -417,8 +419,8 @@ RM = {"w": "warn", "a": "auto", "s": "strict"}
 UM = {"a": "all", "c": "content", "s": "structure", "n": "new"}
 
 
-def cli_args(fl, files=None):
-    a = ["check", "--format", "json", "--color", "never", "--no-sloc-cache"]
+def cli_args(fl, files=None, root=None):
+    a = ["check"] + ([root] if root else []) + ["--format", "json", "--color", "never", "--no-sloc-cache"]
     if fl.get("b"):
         a += ["--baseline", BASELINE_FILE]
     if fl.get("u"):
@@ -458,7 +460,7 @@ class Project:
         self.probe_cache = {}
 
     def set_cfg(self, fl):
-        c = config_toml(self.depth0, fl.get("rg"), bool(fl.get("ff_cfg")), bool(fl.get("wae_cfg")))
+        c = config_toml(self.depth0, fl.get("rg"), bool(fl.get("ff_cfg")), bool(fl.get("wae_cfg")), bool(fl.get("ns")))
         if c != self.cfg:
             self.sb.write(".sloc-guard.toml", c)
             self.cfg = c
@@ -467,10 +469,10 @@ class Project:
         apply_state(self.sb.proj, state)
         self.state = state
 
-    def raw(self, fl, files=None, threads=1):
+    def raw(self, fl, files=None, threads=1, root=None):
         self.set_cfg(fl)
         self.spawns += 1
-        rc, out, err = self.sb.run(self.exe, cli_args(fl, files), env={"RAYON_NUM_THREADS": str(threads)})
+        rc, out, err = self.sb.run(self.exe, cli_args(fl, files, root), env={"RAYON_NUM_THREADS": str(threads)})
         return rc, out, err
 
     def probe(self):
@@ -488,11 +490,14 @@ class Project:
         self.probe_cache[self.state] = res
         return res
 
-    def run(self, fl, files=None, threads=1):
-        """One observed run. Returns the step record (without model output)."""
+    def run(self, fl, files=None, threads=1, root=None):
+        """One observed run. Returns the step record (without model output). [root] is a sub-path scan root
+        (`check d1`): only that directory is scanned, its entries are reported as d1/..."""
         pr = self.probe()
         disk0 = read_disk(self.sb.proj)
-        rc, out, err = self.raw(fl, files, threads)
+        if root and not os.path.isdir(os.path.join(self.sb.proj, root)):
+            root = None
+        rc, out, err = self.raw(fl, files, threads, root)
         disk1 = read_disk(self.sb.proj)
         try:
             obs, summary = parse_json_results(out)
@@ -514,7 +519,18 @@ class Project:
         else:
             rsel = list(pr["R"])
             dirs = [norm_key(d) for d in present_dirs(self.state)]
-        return {"state": self.state, "depth0": self.depth0, "flags": dict(fl), "files": files, "threads": threads,
+            if root:
+                under = lambda k: k == root or k.startswith(root + "/")
+                # depth is counted from the scan root, so depth results of the full run do not carry over
+                rsel = [dict(r, path=norm_key(r["path"])) for r in rsel if under(norm_key(r["path"])) and r["kind"] != "sM"]
+                dirs = [d for d in dirs if under(d)]
+            if fl.get("ns"):
+                rsel = [r for r in rsel if r["kind"] in ("n", "c")]
+                dirs = []
+            for r in obs:
+                if r["kind"] in ("n", "c") and not r["hash"]:
+                    r["hash"] = hmap.get("./" + canon(r["path"]), "")
+        return {"state": self.state, "root": root, "depth0": self.depth0, "flags": dict(fl), "files": files, "threads": threads,
                 "disk0": disk0, "disk1": disk1, "exit": rc, "obs": obs, "rp": [pre(r) for r in obs], "rsel": rsel, "dirs": dirs,
                 "rfull": pr["R"], "parsed": parsed, "stderr": err[-1500:], "stdout_raw": out, "probe_ok": pr["agrees_with_evaluator"],
                 "stale_reported": parse_stale(err)}
@@ -584,15 +600,17 @@ def replay_history(exe, hist, depth0=False, auto_rerun=True):
                 fl = {"b": op["we"], "u": op["mode"]}
                 rec = pj.run(fl)
             else:
-                rec = pj.run(op["flags"], op.get("files"), op.get("threads", 1))
+                rec = pj.run(op["flags"], op.get("files"), op.get("threads", 1), op.get("root"))
             rec["op_index"] = i
             rec["op"] = op
             recs.append(rec)
             # C10 fixpoint: rerun an auto-ratchet run once on the same state
             fl = rec["flags"]
             mode = fl.get("rc") or fl.get("rg")
-            if auto_rerun and mode == "a" and fl.get("b") and not fl.get("u") and not is_ff(fl):
-                again = pj.run(fl, rec["files"], rec["threads"])
+            if auto_rerun and mode == "a" and fl.get("b") and not is_ff(fl) and rec["exit"] != 2:
+                # (also when the same run updated the baseline: the rerun is the plain auto run)
+                fl2 = {k: v for k, v in fl.items() if k != "u"}
+                again = pj.run(fl2, rec["files"], rec["threads"], rec.get("root"))
                 again["op_index"] = i
                 again["op"] = op
                 again["rerun_of_auto"] = True
@@ -625,6 +643,9 @@ def op_alphabet():
     ops += [{"op": "update", "mode": m, "we": we} for m in "acsn" for we in (False, True)]
     ops += [{"op": "check", "flags": fl, "files": files} for fl, files in CHECK_FLAGS_SMALL]
     ops.append({"op": "respell"})
+    # runs that scan directories but do not evaluate every directory the baseline names
+    ops.append({"op": "check", "flags": {"b": True, "rc": "a"}, "files": None, "root": "d1"})
+    ops.append({"op": "check", "flags": {"b": True, "rc": "s", "ns": True}, "files": None})
     return ops
 
 
@@ -698,7 +719,12 @@ def rand_history(rng, maxlen=10):
         else:
             prev = [o for o in h if o["op"] == "edit"][-1]["state"]
             files = rand_files(rng, prev) if rng.random() < 0.3 else None
-            h.append({"op": "check", "flags": rand_flags(rng), "files": files, "threads": rng.choice([1, 1, 2, 8])})
+            o = {"op": "check", "flags": rand_flags(rng), "files": files, "threads": rng.choice([1, 1, 2, 8])}
+            if files is None and rng.random() < 0.15:
+                o["root"] = rng.choice(["d1", "d2"])
+            if rng.random() < 0.08:
+                o["flags"]["ns"] = True
+            h.append(o)
     return h
 
 
@@ -827,7 +853,7 @@ def oracles_c09(rec, prev, fixed):
         # idempotence: same mode, same state, previous op was that update
         if prev is not None and prev["flags"].get("u") == u and prev["state"] == rec["state"] and prev["op_index"] == rec["op_index"] - 1 \
                 and not is_ff(fl) and not is_ff(prev["flags"]) and prev["files"] is None and rec["files"] is None \
-                and not (fl.get("rc") or fl.get("rg")) and prev["exit"] != 2:
+                and not (fl.get("rc") or fl.get("rg")) and prev["exit"] != 2 and not fl.get("ns") and not prev["flags"].get("ns"):
             if (d1 or {}) != (d0 or {}):
                 klass = None
                 d9_now = loaded is not None and any(o["status"] == "G" for o in rec["obs"])
@@ -861,7 +887,8 @@ def oracles_c09(rec, prev, fixed):
             out.append(("C09", None, "history_inv: key %s written without a failing result" % stray[0]))
     # (a) round trip
     if prev is not None and prev["flags"].get("u") == "a" and prev["state"] == rec["state"] and prev["op_index"] == rec["op_index"] - 1 \
-            and fl.get("b") and not u and not is_ff(fl) and rec["files"] is None and prev["files"] is None and not is_ff(prev["flags"]) and prev["exit"] != 2:
+            and fl.get("b") and not u and not is_ff(fl) and rec["files"] is None and prev["files"] is None and not is_ff(prev["flags"]) and prev["exit"] != 2 \
+            and not rec.get("root") and not fl.get("ns") and not prev["flags"].get("ns") and not prev.get("root"):
         notg = [o for o in rec["obs"] if o["kind"] in BASELINABLE and o["status"] == "F"]
         klass = None
         if prev["flags"].get("b") and prev["disk0"] is not None and any(o["status"] == "G" for o in prev["obs"]):
@@ -938,4 +965,4 @@ def classify_history(recs, fixed):
 
 def slim(rec):
     """A record without bulky fields, for replay files and samples."""
-    return {k: rec[k] for k in ("state", "depth0", "flags", "files", "threads", "disk0", "disk1", "exit", "obs", "stale_reported") if k in rec}
+    return {k: rec[k] for k in ("state", "depth0", "flags", "files", "root", "threads", "disk0", "disk1", "exit", "obs", "stale_reported") if k in rec}
